@@ -21,6 +21,14 @@ Proof.
   - intros H [n o] Hi. apply outcome_eqb_eq. cbn [snd]. exact (H n o Hi).
 Qed.
 
+Theorem layout_ok_diff op d base alts :
+  layout_ok (Diff op d base alts) = true <-> forall n o, In (n, o) alts -> o = base.
+Proof.
+  cbn [layout_ok]. rewrite forallb_forall. split.
+  - intros H n o Hi. apply outcome_eqb_eq. exact (H (n, o) Hi).
+  - intros H [n o] Hi. apply outcome_eqb_eq. cbn [snd]. exact (H n o Hi).
+Qed.
+
 Theorem prop_ok_bin o sa sb xa xb cbt s v alts :
   prop_ok (Bin o sa sb xa xb cbt (BOk s v) alts) = true <-> forall p r, In (p, r) alts -> r = BOk s v.
 Proof.
